@@ -655,7 +655,10 @@ def run_C06(ctx):
                 "partial-environment shapes (unknown principal/action/resource/context, unknowns nested in context records and "
                 "sets, two unknowns, ignored parts, fully concrete), and the conditions-loop family: policies with three conditions, "
                 "every ordered triple over bodies that partial evaluation drops, rewrites, keeps, fails on or ignores, four "
-                "when/unless patterns, both effects, under six shapes mixing unknown and ignored parts. The harness runs the real x/exp/eval.PartialPolicy and "
+                "when/unless patterns, both effects, under six shapes mixing unknown and ignored parts; and the leak family: under a "
+                "context that holds an unknown two levels down, every ordered pair of {collection holding the unknown, the unknown "
+                "itself, known values} as members of a set literal, fields of a record literal and branches of an if (condition "
+                "undecided / decided), each under ten operators that look inside, both effects. The harness runs the real x/exp/eval.PartialPolicy and "
                 "records keep/residual. Trace_Partial then evaluates, with the TLA+ evaluator, the original and the residual under "
                 "EVERY completion of the unknowns drawn from candidate universes (entities for request positions, whole records "
                 "for the context, values of several kinds for nested unknowns) and checks the soundness predicate of "
@@ -667,7 +670,7 @@ def run_C06(ctx):
                        "an embedded partial-error node is interpreted as 'evaluation fails'",
                        "a forbid policy with an ignored part is not constrained by the statement"]
     q = ctx.quick
-    consts = "CONSTANT UseDepth2 = %s\nCONSTANT Stride = %d\nCONSTANT LoopStride = %d\n" % ("FALSE" if q else "TRUE", 3 if q else 1, 5 if q else 1)
+    consts = "CONSTANT UseDepth2 = %s\nCONSTANT Stride = %d\nCONSTANT LoopStride = %d\nCONSTANT LeakStride = %d\n" % ("FALSE" if q else "TRUE", 3 if q else 1, 5 if q else 1, 1)
     add_gen_exec_validate(ctx, "partial", "universe", "MC_PartialGen", ["mc/MC_PartialGen.tla"], cfg=GEN_CFG + consts,
                           min_cases=1000, timeout=7200)
     add_m3(ctx, "partial", "random", "partial", 2000 if q else 40000)
